@@ -1023,7 +1023,7 @@ func run(c *h.Check) {
 		bound = 4
 	}
 	for _, sc := range schedScenarios(c.Thorough()) {
-		c.Explore(sc, bound, 300000, false)
+		c.Explore(sc, bound, 100000, false)
 	}
 	for _, sc := range slowScenarios() {
 		c.Explore(sc, bound, 20000, false)
